@@ -79,8 +79,10 @@ where
 			// is valid YAML (e.g. xt's format detection).
 			match event.event_type() {
 				YAML_DOCUMENT_START_EVENT => {
-					let offset = event.start_offset();
-					self.parser.reader_mut().trim_to_offset(offset);
+					// The chunk keeps everything since the end of the previous
+					// document. The start mark of an implicit document is its
+					// first token, so trimming to it would strip the indentation
+					// of the first line and change how the chunk parses.
 					self.current_document_kind = None;
 					if let Some(doc) = self.last_document.take() {
 						return Some(Ok(doc));
@@ -156,14 +158,6 @@ where
 			captured: vec![],
 			captured_start_offset: 0,
 		}
-	}
-
-	/// Trims from the start of the capture buffer so the next chunk will begin
-	/// at the specified reader offset.
-	fn trim_to_offset(&mut self, offset: u64) {
-		let trim_len = usize::try_from(offset - self.captured_start_offset).unwrap();
-		self.captured_start_offset = offset;
-		self.captured.drain(..trim_len);
 	}
 
 	/// Takes the chunk from the start of the capture buffer up to the specified
